@@ -2,16 +2,27 @@ import PoolModel.C18
 /-! # C18 — bookkeeping of `auctioneer.Client` over fault events
 
 State machine over the *quiescent* states of the client (no call in progress, all goroutines parked), mirroring
-`connectAndAuthenticate`, `closeStream`, `connectServerStream`, `HandleServerShutdown`, the reaction of
-`readIncomingStream` to a transport error / a `SERVER_SHUTDOWN` notice, and the reaction of
+`connectAndAuthenticate`, `closeStream`, `connectServerStream`, `HandleServerShutdown` (+ `keepSubscriptions`), the
+reaction of `readIncomingStream` to a transport error / a `SERVER_SHUTDOWN` notice, and the reaction of
 `rpcServer.serverHandler` to `StreamErrChan`.  One op = one externally triggered event run to quiescence.
 
 The scripted auctioneer answers every incoming commitment with the next behaviour of a queue (`Beh`).  Go map
-iteration order of `subscribedAccts` in `HandleServerShutdown` is an input (`orders`), supplied from observation.
+iteration order of `subscribedAccts` in `HandleServerShutdown` is a parameter `pick` (any function returning a
+permutation); the theorems hold for every such function, the driver uses the identity.
 
-What is *not* modelled (the op returns `chaos = true`): a shutdown notice that arrives while `HandleServerShutdown`
-is itself re-subscribing – the new stream's reader then runs a second `HandleServerShutdown` concurrently with the
-first one, and the outcome depends on the goroutine schedule. -/
+`Variant` selects the code before / after the three repairs (`fix:` commits on branch fix-auct):
+* `keepOnAbort`     – `HandleServerShutdown` re-inserts the accounts it did not get to when a re-subscription fails;
+* `inlineOnError`   – `connectAndAuthenticate` re-connects itself when the diverted stream error hit its handshake
+                      while waiting for the challenge or for the final answer (before: only when a send failed);
+* `handlerRetries`  – `serverHandler` calls `HandleServerShutdown` again until it succeeds.
+
+`connectAndAuthenticate` → `HandleServerShutdown` → `StartAccountSubscription` → `connectAndAuthenticate` is a real
+recursion in the Go code (one level per stream failure that hits a handshake); the model unrolls it by levels
+(`hsLevel`), each level consuming at least one behaviour of the script.
+
+What is *not* modelled (`chaos = true`): a shutdown notice that arrives while `HandleServerShutdown` is itself
+re-subscribing – the new stream's reader then runs a second `HandleServerShutdown` concurrently with the first one and
+the outcome depends on the goroutine schedule (open finding `C18/client/concurrent-reconnects`). -/
 namespace Pool.C18
 
 /-- behaviour of the auctioneer for one incoming commitment -/
@@ -21,7 +32,28 @@ inductive Beh
   | shutBC  -- shutdown notice before the challenge
   | errAC   -- challenge, subscribe received, then transport error instead of success
   | shutAC  -- challenge, subscribe received, then shutdown notice instead of success
+  | errMid  -- challenge, then transport error before the subscribe message could be sent (the send fails)
+  | reject  -- challenge, subscribe received, then an error answer for this account (stream stays up)
 deriving DecidableEq, Repr
+
+structure Variant where
+  keepOnAbort : Bool
+  inlineOnError : Bool
+  handlerRetries : Bool
+deriving DecidableEq, Repr
+
+/-- the code as repaired -/
+def Variant.fixed : Variant := ⟨true, true, true⟩
+/-- the code before the repairs -/
+def Variant.orig : Variant := ⟨false, false, false⟩
+
+/-- which variant the source is, read off the regenerated shapes (`Pool.Gen.C18`): `keepSubscriptions` is called in
+`HandleServerShutdown`; `connectAndAuthenticate` has three `HandleServerShutdown` call sites; `serverHandler` calls
+`HandleServerShutdown` inside a `for` loop -/
+def variantOfSource : Variant :=
+  { keepOnAbort := Pool.Gen.C18.handleShutdownShape.contains "c.keepSubscriptions"
+    inlineOnError := Pool.Gen.C18.connectAndAuthShape.count "c.HandleServerShutdown" == 3
+    handlerRetries := Pool.Gen.C18.handlerReaction.contains "for err != nil && err != auctioneer.ErrClientShutdown" }
 
 /-- the auctioneer's view of one stream -/
 structure Stream where
@@ -49,15 +81,11 @@ structure Client where
   attempts : Nat := 0
   /-- errors received on `StreamErrChan` -/
   mainErrs : List ErrClass := []
-  /-- results of `HandleServerShutdown(err)` calls made by the main handler -/
+  /-- results of the `HandleServerShutdown(err)` calls made by the main handler -/
   handlerRes : List ErrClass := []
   /-- scripted auctioneer: refusals of the next `Terms` calls, behaviours of the next commitments -/
   refuse : Nat := 0
   beh : List Beh := []
-  /-- observed iteration orders of the coming re-subscription loops -/
-  orders : List (List Nat) := []
-  /-- an order that is not a permutation of `accts` was supplied / none was left -/
-  badOrder : Bool := false
   /-- left the modelled fragment (see header) -/
   chaos : Bool := false
 deriving DecidableEq, Repr
@@ -88,12 +116,15 @@ inductive HsRes
   | ok
   | errTransport   -- an error was returned; nothing else happens (the reader goroutine has exited)
   | errShutdown    -- an error was returned *and* the reader goroutine runs `HandleServerShutdown(nil)`
+  | errRejected    -- an error was returned; the stream is still up
 deriving DecidableEq, Repr
 
 def addAcct (l : List Nat) (a : Nat) : List Nat := if a ∈ l then l else l ++ [a]
 
-/-- `connectAndAuthenticate(acctKey, recovery=false)` -/
-def Client.connectAndAuth (c : Client) (a : Nat) : Client × HsRes :=
+/-- `connectAndAuthenticate(acctKey, recovery=false)`; `inline` is `c.HandleServerShutdown(nil)` as called from
+inside this function (`return sub, false, c.HandleServerShutdown(nil)`) -/
+def Client.connectAndAuth (v : Variant) (inline : Client → Client × HsRes) (c : Client) (a : Nat) :
+    Client × HsRes :=
   -- "Don't subscribe more than once."
   if a ∈ c.accts then (c, .ok) else
   -- needToConnect := c.serverStream == nil
@@ -108,49 +139,79 @@ def Client.connectAndAuth (c : Client) (a : Nat) : Client × HsRes :=
     let c := { c with beh := c.beh.tail }
     match b with
     | .ok => (c.setCur fun s => { s with subs := s.subs ++ [a], success := s.success ++ [a] }, .ok)
-    | .errBC => (c.setCur fun s => { s with alive := false }, .errTransport)
-    | .errAC => (c.setCur fun s => { s with subs := s.subs ++ [a], alive := false }, .errTransport)
+    | .errBC =>
+      -- authenticate() consumes the diverted ErrServerErrored while waiting for the challenge
+      let c := c.failStream
+      if v.inlineOnError then inline c else (c, .errTransport)
+    | .errAC =>
+      -- the diverted ErrServerErrored arrives while waiting for the final answer
+      let c := c.setCur fun s => { s with subs := s.subs ++ [a], alive := false }
+      if v.inlineOnError then inline c else (c, .errTransport)
+    | .errMid =>
+      -- sending Subscribe fails and ErrServerErrored waits on tempErrChan: "let's re-try our connection"
+      inline c.failStream
+    | .reject => (c.setCur fun s => { s with subs := s.subs ++ [a] }, .errRejected)
     | .shutBC => (c, .errShutdown)
     | .shutAC => (c.setCur fun s => { s with subs := s.subs ++ [a] }, .errShutdown)
 
-/-- the loop `for _, acctKey := range acctKeys { StartAccountSubscription(...) ; if err != nil { return err } }` -/
-def Client.resubLoop (c : Client) : List Nat → Client × HsRes
+/-- `keepSubscriptions(acctKeys[idx+1:])` -/
+def keepAccts (accts rest : List Nat) : List Nat := accts ++ rest.filter (fun a => !accts.contains a)
+
+/-- the loop `for idx, acctKey := range acctKeys { err := StartAccountSubscription(...); if err != nil { … return err } }` -/
+def Client.resubLoop (v : Variant) (hs : Client → Nat → Client × HsRes) (c : Client) : List Nat → Client × HsRes
   | [] => (c, .ok)
   | a :: rest =>
-    match c.connectAndAuth a with
-    | (c', .ok) => c'.resubLoop rest
-    | r => r          -- the remaining accounts have already been deleted from the map
+    match hs c a with
+    | (c', .ok) => c'.resubLoop v hs rest
+    | (c', r) =>
+      -- all keys were deleted from the map before the loop
+      (if v.keepOnAbort then { c' with accts := keepAccts c'.accts rest } else c', r)
 
-def isPerm (a b : List Nat) : Bool := a.length == b.length && a.all (fun x => a.count x == b.count x)
-
-/-- `HandleServerShutdown(err)` up to its return value -/
-def Client.handleShutdown (c : Client) : Client × HsRes :=
+/-- `HandleServerShutdown(err)` up to its return value; `pick` = map iteration order -/
+def Client.handleShutdown (v : Variant) (pick : List Nat → List Nat) (hs : Client → Nat → Client × HsRes)
+    (c : Client) : Client × HsRes :=
   let c := c.closeStream
   -- connectServerStream(c.cfg.MinBackoff, reconnectRetries)
   let c := c.connectStream
   -- collect the keys in map order and delete them all
-  match c.orders with
-  | [] => ({ c with badOrder := true }, .ok)
-  | ord :: more =>
-    if !isPerm ord c.accts then ({ c with badOrder := true, orders := more }, .ok) else
-    { c with accts := [], orders := more }.resubLoop ord
+  match { c with accts := [] }.resubLoop v hs (pick c.accts) with
+  -- a shutdown notice hit a re-subscription: a second HandleServerShutdown now runs concurrently (not modelled)
+  | (c', .errShutdown) => ({ c' with chaos := true }, .errShutdown)
+  | r => r
+
+/-- the handshake function at recursion depth `n` (number of further stream failures it can absorb inline) -/
+def hsLevel (v : Variant) (pick : List Nat → List Nat) : Nat → Client → Nat → Client × HsRes
+  | 0 => Client.connectAndAuth v (fun c => ({ c with chaos := true }, .ok))
+  | n + 1 => Client.connectAndAuth v (fun c => c.handleShutdown v pick (hsLevel v pick n))
 
 /-- reaction of `rpcServer.serverHandler` to an error `e ≠ nil, ≠ ErrServerShutdown` on `StreamErrChan`:
-`HandleServerShutdown(e)`, result only logged -/
-def Client.mainHandler (c : Client) (e : ErrClass) : Client :=
-  let c := { c with mainErrs := c.mainErrs ++ [e] }
-  match c.handleShutdown with
-  | (c', .ok) => { c' with handlerRes := c'.handlerRes ++ [.none_] }
-  | (c', .errTransport) => { c' with handlerRes := c'.handlerRes ++ [.other] }
-  | (c', .errShutdown) => { c' with chaos := true }
+`HandleServerShutdown(e)`; before the repair the result was only logged, now it is retried until nil
+(`fuel` bounds the unrolling; every failed round consumes a behaviour of the script) -/
+def Client.handlerRound (hsd : Client → Client × HsRes) (c : Client) : Client × Bool :=
+  match hsd c with
+  | (c', .ok) => ({ c' with handlerRes := c'.handlerRes ++ [.none_] }, false)
+  | (c', .errShutdown) => ({ c' with chaos := true }, false)
+  | (c', _) => ({ c' with handlerRes := c'.handlerRes ++ [.other] }, true)
+
+def Client.handlerLoop (v : Variant) (hsd : Client → Client × HsRes) : Nat → Client → Client
+  | 0, c =>
+    let r := Client.handlerRound hsd c
+    if r.2 && v.handlerRetries then { r.1 with chaos := true } else r.1
+  | f + 1, c =>
+    let r := Client.handlerRound hsd c
+    if r.2 && v.handlerRetries then Client.handlerLoop v hsd f r.1 else r.1
+
+def Client.mainHandler (v : Variant) (hsd : Client → Client × HsRes) (fuel : Nat) (c : Client) (e : ErrClass) :
+    Client :=
+  Client.handlerLoop v hsd fuel { c with mainErrs := c.mainErrs ++ [e] }
 
 /-- `readIncomingStream` on a `SERVER_SHUTDOWN` notice: `HandleServerShutdown(nil)`; a non-nil result is sent to the
 error switch (not diverted any more) and reaches the main handler -/
-def Client.readerShutdown (c : Client) : Client :=
-  match c.handleShutdown with
+def Client.readerShutdown (v : Variant) (hsd : Client → Client × HsRes) (fuel : Nat) (c : Client) : Client :=
+  match hsd c with
   | (c', .ok) => c'
-  | (c', .errTransport) => c'.mainHandler .other
   | (c', .errShutdown) => { c' with chaos := true }
+  | (c', _) => c'.mainHandler v hsd fuel .other
 
 /-- externally triggered events -/
 inductive Op
@@ -164,22 +225,26 @@ inductive Ret
   | none_ | ok | err
 deriving DecidableEq, Repr
 
-def Client.step (c : Client) : Op → Client × Ret
+def Client.step (v : Variant) (pick : List Nat → List Nat) (c : Client) (op : Op) : Client × Ret :=
+  let depth := c.beh.length
+  let hs := hsLevel v pick depth
+  let hsd := fun c : Client => c.handleShutdown v pick hs
+  match op with
   | .sub a =>
-    match c.connectAndAuth a with
+    match hs c a with
     | (c', .ok) => (c', .ok)
-    | (c', .errTransport) => (c', .err)
-    | (c', .errShutdown) => (c'.readerShutdown, .err)
+    | (c', .errShutdown) => (c'.readerShutdown v hsd depth, .err)
+    | (c', _) => (c', .err)
   | .errIdle =>
     if c.isOpen && c.cur.alive then
       -- reader: ErrServerErrored → switch (not diverted) → main handler
-      (c.failStream.mainHandler .serverErrored, .none_)
+      (c.failStream.mainHandler v hsd depth .serverErrored, .none_)
     else (c, .none_)
   | .shutIdle =>
-    if c.isOpen && c.cur.alive then (c.readerShutdown, .none_) else (c, .none_)
+    if c.isOpen && c.cur.alive then (c.readerShutdown v hsd depth, .none_) else (c, .none_)
 
 /-- install the auctioneer's script for the next op -/
-def Client.script (c : Client) (refuse : Nat) (beh : List Beh) (orders : List (List Nat)) : Client :=
-  { c with refuse := refuse, beh := beh, orders := orders, mainErrs := [], handlerRes := [] }
+def Client.script (c : Client) (refuse : Nat) (beh : List Beh) : Client :=
+  { c with refuse := refuse, beh := beh, mainErrs := [], handlerRes := [] }
 
 end Pool.C18
